@@ -3,7 +3,7 @@
 (a) Every combination of converter x URI x binding direction x VALUES placement x predicate is evaluated on the graph
 directly, through Flask GET and POST and through FastAPI GET (in-process clients); after the query sweep the live
 converter gains a URI-prefix synonym and the service is queried again (observe - mutate - observe).
-(b) Every Accept header of 1..3 elements over 10 media types x 4 q-values x all placements of optional whitespace is fed
+(b) Every Accept header of 1..3 elements over 10 media types x 5 q-values (one with two decimals) x all placements of optional whitespace is fed
 to handle_header and compared with a reference negotiation written per RFC 7231; a subset goes through the web clients.
 """
 
@@ -23,6 +23,7 @@ CONVERTERS = [
     [mrec("a", "x:/a/", [], ["x:/a/b_"]), mrec("b", "x:/a/b", [], ["y:/b#"])],
     [mrec("solo", "http://solo/")],
     [mrec("m", "http://long/common/m/", ["mm"], ["http://long/common/m#", "urn:m:"]), mrec("n", "http://long/common/n/", [], ["http://long/common/"])],
+    [mrec("gr", "http://p/α/", [], ["http://é.example/ß_", "http://id/gr/"]), mrec("zh", "http://中/")],   # valid IRIs beyond ASCII
 ]
 OWL_SAMEAS = "http://www.w3.org/2002/07/owl#sameAs"
 OTHER_PRED = "http://www.w3.org/2000/01/rdf-schema#seeAlso"
@@ -43,12 +44,18 @@ def uris_for(model):
 
 
 def sparql(u, direction, placement, pred):
+    """placement: inside / after (VALUES block inside or after WHERE), optionally '+filter' (a FILTER that is always
+    true next to the triple pattern) or '+distinct'."""
     bound, free = ("s", "o") if direction == "s" else ("o", "s")
     values = f"VALUES ?{bound} {{ <{u}> }}"
     pattern = f"?s <{pred}> ?o"
-    if placement == "inside":
-        return f"SELECT ?s ?o WHERE {{ {values} {pattern} }}"
-    return f"SELECT ?s ?o WHERE {{ {pattern} }} {values}"
+    where, _, extra = placement.partition("+")
+    select = "SELECT DISTINCT ?s ?o" if extra == "distinct" else "SELECT ?s ?o"
+    if extra == "filter":
+        pattern += f" FILTER(isIRI(?{free}))"
+    if where == "inside":
+        return f"{select} WHERE {{ {values} {pattern} }}"
+    return f"{select} WHERE {{ {pattern} }} {values}"
 
 
 def expected(model, u, pred):
@@ -134,7 +141,7 @@ def check_query(ci, u, direction, placement, pred, model=None, ctx=None):
             if not want:
                 kind = "answers-for-unrecognised-uri-or-other-predicate"
             elif not got:
-                kind = f"no-answer/{placement}-VALUES"
+                kind = f"no-answer/{placement.partition('+')[0]}-VALUES" + ("-with-" + placement.partition("+")[2] if "+" in placement else "")
             elif got < want:
                 kind = "equivalent-uri-missing"
             else:
@@ -185,7 +192,7 @@ def check_after_mutation(ci, ctx=None):
 SUPPORTED = ["application/sparql-results+json", "application/sparql-results+xml", "application/sparql-results+csv"]
 SYN = {"application/json": SUPPORTED[0], "text/json": SUPPORTED[0], "application/xml": SUPPORTED[1], "text/xml": SUPPORTED[1], "text/csv": SUPPORTED[2]}
 TYPES = SUPPORTED + list(SYN) + ["text/html", "*/*"]
-QS = [None, "0.1", "0.5", "0.9"]
+QS = [None, "0.1", "0.5", "0.55", "0.9"]
 DEFAULT = SUPPORTED[1]
 
 
@@ -322,7 +329,7 @@ def run_unit(unit, ctx):
         ctx.state(hash(("svc", ci)))
         for u in unit["uris"]:
             for direction in ("s", "o"):
-                for placement in ("inside", "after"):
+                for placement in ("inside", "after", "inside+filter", "after+filter", "after+distinct"):
                     for pred in (OWL_SAMEAS, OTHER_PRED):
                         fails = check_query(ci, u, direction, placement, pred, ctx=ctx)
                         case = {"kind": "sparql", "conv": ci, "uri": u, "direction": direction, "placement": placement, "pred": pred}
@@ -417,8 +424,8 @@ def replay(case):
 def describe(tier):
     return {
         "level": "model_checking",
-        "rule": "(a) 4 converters (nested URI prefixes, URI synonyms nested inside other records' prefixes, CURIE synonyms) x every URI prefix "
-        "followed by '1', '', 'x/y' and shortened by one character + 2 unrecognised URIs x ?s/?o bound x VALUES inside/after WHERE x "
+        "rule": "(a) 5 converters (non-ASCII IRIs, nested URI prefixes, URI synonyms nested inside other records' prefixes, CURIE synonyms) x every URI prefix "
+        "followed by '1', '', 'x/y' and shortened by one character + 2 unrecognised URIs x ?s/?o bound x VALUES inside/after WHERE (plain, with a FILTER, with DISTINCT) x "
         "{owl:sameAs, other predicate} x {graph, Flask GET, Flask POST, FastAPI GET}; then twice: query, add a URI synonym to the live "
         "converter, query again; graphs configured with 6 explicit predicate sets x 3 queried predicates; (b) all Accept headers of 1..3 distinct media types from 3 supported + 5 synonyms + text/html + */* x q in "
         "{absent,0.1,0.5,0.9} x 8 optional-whitespace placements; 1/3 of the 2-element headers also through both web frameworks; "
